@@ -268,11 +268,17 @@ def parseTOp (toks : List String) : Option TOp :=
   | ["hand", finals] => some (.hand (intList finals))
   | _ => none
 
+/-- match.Table (match/table.go): `Join`, `ApplySeatChanges` with one seat reported "left", `GetPlayers`. -/
+def mtStr (sm : SM) (e : Option SMErr) : String :=
+  let seats := sm.seats.map fun s => s!"{optNat s.player}/{b01 s.active}/{b01 s.reserved}"
+  s!"mt err={smErrName e} seats={joinList seats} count={sm.playerCount} players={joinList (sm.seats.filterMap fun s => s.player.map toString)}"
+
 structure DState where
   game : Option Game := none
   sm : SM := SM.new 0
   rg : Reg := { max := 9, min := 6 }
   tb : Table := Table.new 0 {}
+  mt : SM := SM.new 0
 
 def stepLine (s : DState) (line : String) : DState × String :=
   match (line.trimAscii.toString.splitOn " ").filter (· != "") with
@@ -324,6 +330,18 @@ def stepLine (s : DState) (line : String) : DState × String :=
     match parseROp rest with
     | some op => let (r, o) := s.rg.step op; ({ s with rg := r }, rgStr r o)
     | none => (s, "bad")
+  | ["mt", "new", m] => let sm := SM.new (m.toNat?.getD 0); ({ s with mt := sm }, mtStr sm none)
+  | ["mt", "join", seat, pid, chose] =>
+    let (sm, e, _) := s.mt.step (.join (seat.toInt?.getD 0) (pid.toNat?.getD 0) chose.toNat?)
+    ({ s with mt := sm }, mtStr sm e)
+  | ["mt", "left", seat] =>
+    -- `ApplySeatChanges`: a seat reported as left that holds nobody is skipped with a warning; otherwise `sm.Leave` (error ignored)
+    let i := seat.toNat?.getD 0
+    match s.mt.seats[i]? with
+    | none => (s, "mt err=panic")
+    | some st =>
+      if st.player.isNone then (s, mtStr s.mt none)
+      else let sm := (s.mt.step (.leave (i : Int))).1; ({ s with mt := sm }, mtStr sm none)
   | "tb" :: "new" :: rest =>
     let m := kvs rest
     let t := Table.new (getNat m "max") { initialPlayers := getNat m "init", minPlayers := getNat m "min", maxGames := getNat m "maxgames", leaveMode := getNat m "leave" == 1 }
